@@ -2245,17 +2245,25 @@ fn run_lsp_cases(args: &Args, nlsp: u64, steps: usize, out: &mut Out) -> i32 {
                         let mut rng = Rng::for_case(seed, n);
                         let variants = |slots: Vec<Slot>| slots.into_iter().map(|s| s.variants).collect::<Vec<_>>();
                         let roles = lsp_layer::roles(variants(theme_func(&mut rng)), variants(theme_types(&mut rng)));
-                        let (initial, script, witness) = if n == base {
+                        let (initial, script, witness, config) = if n == base {
                             let (i, s) = lsp_layer::alias_witness();
-                            (i, s, 1)
+                            (i, s, 1, None)
                         } else if n == base + 1 {
                             let (i, s) = lsp_layer::symlink_delete_witness();
-                            (i, s, 2)
+                            (i, s, 2, None)
+                        } else if n == base + 2 {
+                            let (i, s, c) = lsp_layer::budget_witness();
+                            (i, s, 1, Some(c))
+                        } else if rng.chance(1, 4) {
+                            // a session under a memory budget: big files, evictions
+                            let (c, pads) = lsp_layer::budget_plan(&mut rng, roles.len());
+                            let (i, s) = lsp_layer::gen_script(&mut rng, &roles, lsteps, &|r, t| mutate(r, t), &pads);
+                            (i, s, 0, Some(c))
                         } else {
-                            let (i, s) = lsp_layer::gen_script(&mut rng, &roles, lsteps, &|r, t| mutate(r, t));
-                            (i, s, 0)
+                            let (i, s) = lsp_layer::gen_script(&mut rng, &roles, lsteps, &|r, t| mutate(r, t), &[]);
+                            (i, s, 0, None)
                         };
-                        (n, lsp_layer::run_case(&bin, n, &wsbase, &initial, &script, witness))
+                        (n, lsp_layer::run_case(&bin, n, &wsbase, &initial, &script, witness, config.as_deref()))
                     })
                     .collect::<Vec<_>>()
             }));
@@ -2302,8 +2310,8 @@ fn run_hir_cases(args: &Args, out: &mut Out, from: u64) {
         *g = info.to_string();
     }));
     for n in args.case_numbers() {
-        if n < from {
-            continue;
+        if n < from || n >= args.cases {
+            continue; // (`--only` may name a witness or an LSP session)
         }
         let mut rng = Rng::for_case(args.seed, n);
         if !focus && n % proj_every == proj_every - 1 {
